@@ -990,14 +990,14 @@ def _create_socks_endpoint(reactor, control_protocol, socks_config=None):
         socks_ports = []
 
     # everything in the SocksPort list can include "options" after the
-    # initial value. We don't care about those, but do need to strip
-    # them.
-    socks_ports = [port.split()[0] for port in socks_ports]
+    # initial value. We don't care about those for finding a usable
+    # port (but must keep them if we re-issue the lines, below).
+    stripped_ports = [port.split()[0] for port in socks_ports]
 
     # could check platform? but why would you have unix ports on a
     # platform that doesn't?
-    unix_ports = set([p for p in socks_ports if p.startswith('unix:')])
-    tcp_ports = set(socks_ports) - unix_ports
+    unix_ports = set([p for p in stripped_ports if p.startswith('unix:')])
+    tcp_ports = set(stripped_ports) - unix_ports
 
     socks_endpoint = None
     for p in list(unix_ports) + list(tcp_ports):  # prefer unix-ports
